@@ -49,7 +49,7 @@ def main():
         assert os.path.exists(demo_src) and demo_loc, "demo.rs / demo_location missing"
         crate = demo_loc.split("/")[0]
         test_name = os.path.basename(demo_loc)[:-3]
-        pkg = {"src": "feather-build-rs"}.get(crate, crate)
+        pkg = {"src": "feather-build-rs", "tests": "feather-build-rs"}.get(crate, crate)      # root package: tests/<name>.rs
         demo_dst = os.path.join(wt, demo_loc)
         rc, out = run(["git", "status", "--porcelain", "--untracked-files=no"], wt)
         assert out.strip() == "", "worktree has modifications:\n" + out
